@@ -368,6 +368,8 @@ class Program:
                     self.mon.count("wrong-length-rejected")
                 if canon.frame_cells(df) != pre_cells:
                     self.mon.violate("C01", "failed-assignment-left-partial-edit", f"{how} of a wrong-length value raised or not, but the frame changed: {canon.short(pre_cells, 400)} -> {canon.short(canon.frame_cells(df), 400)}")
+                if name not in dict.keys(df):
+                    self.removed(df, name)      # never stored: must not be reachable by key or attribute either
                 self.mon.check_frame(df, ("setitem_wrong_length", "receiver"), self.builtin)
                 self.trace.append(f"{i}:setitem_wrong_length:{how}")
                 self.ok_ops["setitem_wrong_length"] = self.ok_ops.get("setitem_wrong_length", 0) + 1
